@@ -123,6 +123,8 @@ func genXm(r *core.Rand, pr Profile, sec bool, mayClose bool, seqMode bool) stri
 			if r.Chance(1, 2) {
 				rq = "hijack"
 			}
+		case 4:
+			rq = "insec" // the modifier calls the public Session.MarkInsecure()
 		}
 		switch r.Intn(12) {
 		case 0, 1:
@@ -165,6 +167,31 @@ func genXm(r *core.Rand, pr Profile, sec bool, mayClose bool, seqMode bool) stri
 	kv = append(kv, "rq="+rq, "rs="+rs)
 	kv = append(kv, errKinds(r, rq, rs)...)
 	kv = append(kv, consulted(r, rq != "pass" || rs != "pass")...)
+	if pr.Modifiers { // calls of the public context / session API without any effect the proxy may show
+		if r.Chance(1, 10) {
+			api := r.Pick("skiplog", "skiplog,insec", "insec")
+			if sec { // MarkSecure only where the session is secure anyway: on a plain connection it is the modifier's own downgrade-in-reverse, not the proxy's
+				api = r.Pick(api, "insec,marksec", "marksec")
+			}
+			kv = append(kv, "api="+api)
+		}
+		if r.Chance(1, 10) {
+			kv = append(kv, "sapi="+r.Pick("insec", "skiplog", "insec,skiplog"))
+		}
+	}
+	if pr.Rich && r.Chance(1, 30) { // size extremes of the parts that are not the body (sizes.go)
+		switch r.Intn(4) {
+		case 0:
+			kv = append(kv, fmt.Sprintf("rhb=%d", HeaderBulks[r.Intn(len(HeaderBulks))]), "rhs="+r.Pick("many", "one", "lines"))
+			core.Count("size:request-headers")
+		case 1, 2:
+			kv = append(kv, fmt.Sprintf("ohb=%d", HeaderBulks[r.Intn(len(HeaderBulks))]), "ohs="+r.Pick("many", "many", "one", "lines"))
+			core.Count("size:response-headers")
+		case 3:
+			kv = append(kv, fmt.Sprintf("tl=%d", r.Pick2(8000, r.Pick2(65536, 300000))))
+			core.Count("size:target")
+		}
+	}
 	o := "ok"
 	if pr.Faults {
 		switch r.Intn(5) {
@@ -328,6 +355,8 @@ func genMods(r *core.Rand, pr Profile) (string, string) {
 			rq = "err"
 		case 1:
 			rq = "hijack"
+		case 2:
+			rq = "insec"
 		}
 		switch r.Intn(10) {
 		case 0:
@@ -356,6 +385,15 @@ func GenCase(r *core.Rand, pr Profile) []string {
 	}
 	if pr.Rich && r.Chance(1, 150) {
 		return GenLongCase(r, r.Range(1001, 2200))
+	}
+	if (pr.Rich || pr.Faults) && r.Chance(1, 40) {
+		return GenReuseCase(r)
+	}
+	if pr.Faults && pr.Tunnels && r.Chance(1, 4) {
+		return GenDownstreamCase(r, pr)
+	}
+	if pr.Modifiers && !pr.Faults && r.Chance(1, 600) {
+		return []string{"conn mode=pipe listener=plain shutdown=0", fmt.Sprintf("burst n=%d", r.Pick2(66000, r.Pick2(70000, 140000)))}
 	}
 	if pr.Rich && r.Chance(1, 200) {
 		return GenSlowCase(r)
@@ -526,6 +564,55 @@ func GenLongCase(r *core.Rand, n int) []string {
 			r.Pick("abs", "origin"), i+1, r.Intn(4), r.Pick("cl", "cl", "ch")))
 	}
 	core.Count("long:" + mode)
+	return append(ops, "end")
+}
+
+// GenReuseCase: origins that give up a pooled upstream connection at the moment it is reused
+// (reuse.go), under requests the transport can replay (bodiless GET/HEAD/OPTIONS) and under ones it
+// cannot (bodies, POST); everything keep-alive, one origin, so that connections do get reused.
+func GenReuseCase(r *core.Rand) []string {
+	mode := r.Pick("seq", "seq", "pipe")
+	ops := []string{"conn mode=" + mode + " listener=plain shutdown=0"}
+	n := r.Range(3, 7)
+	for i := 0; i < n; i++ {
+		m, rb := r.Pick("GET", "GET", "HEAD", "OPTIONS"), 0
+		if r.Chance(1, 3) {
+			m = r.Pick("POST", "PUT", "POST")
+			rb = r.Pick2(0, r.Range(1, 3000))
+		}
+		oi := ""
+		if i > 0 && r.Chance(1, 2) {
+			oi = " oi=drop"
+			core.Count("reuse:drop-" + closeWord(m != "GET" && m != "HEAD" && m != "OPTIONS") + "-replay")
+		}
+		ops = append(ops, fmt.Sprintf("x m=%s tf=abs pv=11 ct=- hs=%d hdr=1 ohdr=1 rb=%d rf=cl rq=pass rs=pass o=ok st=%s ob=%d of=%s opv=11 oct=- gz=0%s",
+			m, r.Range(1, 9999), rb, r.Pick("200", "200", "404"), r.Range(1, 400), r.Pick("cl", "ch"), oi))
+	}
+	return append(ops, "end")
+}
+
+// GenDownstreamCase: CONNECTs relayed to a downstream proxy and its answers (dsp.go).
+func GenDownstreamCase(r *core.Rand, pr Profile) []string {
+	ops := []string{"conn mode=seq listener=plain shutdown=0 dsp=1"}
+	for i := r.Intn(2); i > 0; i-- {
+		ops = append(ops, genX(r, pr, false, false))
+	}
+	// refusals that leave the connection in use first, then one answer that ends it
+	for i := r.Intn(3); i > 0; i-- {
+		k := r.Pick("trunc", "garbage", "close", "refuse")
+		ops = append(ops, "cblind dial=0 dk=refuse rq=pass rs=pass dsr="+k)
+		core.Count("dsp:" + k)
+	}
+	k := DownstreamAnswers[r.Intn(len(DownstreamAnswers))]
+	core.Count("dsp:" + k)
+	rq, rs := genMods(r, pr)
+	if rq == "insec" {
+		rq = "pass"
+	}
+	ops = append(ops, fmt.Sprintf("cblind dial=%s dk=refuse rq=%s rs=%s dsr=%s", b01(!dsrFails(k)), rq, rs, k))
+	if dsrFails(k) && r.Bool() {
+		ops = append(ops, genX(r, pr, false, true))
+	}
 	return append(ops, "end")
 }
 
